@@ -62,7 +62,7 @@ CHECKS = {
          "Only timestamps, session ids, token-derived digests and map-ordered LDAP attribute lists are masked. The reference is the session's own solo run, so any deterministic behaviour of the service is accepted.",
          "DESIGN.md §5 C03"),
  "C11": ("exploration",
-         "runtime monitoring: read-back of the real RealPath/ChangeDir/Cwd over all path strings up to 5 components (exhaustive) from every reachable working directory; end-to-end FTP sessions through the real dispatcher with real passive (TLS) and active data connections, sentinel-tree snapshot before/after each command sequence, scan of RETR/LIST/NLST bytes and of reported directories",
+         "runtime monitoring: read-back of the real RealPath/ChangeDir/Cwd over all path strings up to 5 components (exhaustive) from every reachable working directory; end-to-end FTP sessions through the real dispatcher with real passive (TLS) and active data connections, sentinel-tree snapshot before/after each command sequence, scan of RETR/LIST/NLST bytes and of reported directories; plus a system-call monitor (strace -f -e trace=%file on the child, sessions delimited by marker calls): every file-system call on a sandbox path during a session must name the root or something inside it (ancestors may be looked at only)",
          "Containment is observed from outside: a sentinel tree beside the root (parent, sibling, sibling sharing the root's name as prefix, marker entries no command names) must be byte-identical after every sequence, no listing or download may show its names or contents, and every reported working directory must be a clean absolute path.",
          "Root created without symlinks. Lexical containment for the direct part. RETR never returns file content in this implementation (it seeks to the end of the file), so content leaks can only show through listings.",
          "DESIGN.md §5 C11"),
@@ -99,7 +99,7 @@ CHECKS = {
  "C15": ("exploration",
          "runtime monitoring: real http-proxy, ssh-proxy, copy and dns-proxy behind the dispatcher with forward directors to recording harness backends on loopback (raw HTTP backend, x/crypto SSH server, TCP/UDP transformers) plus a decoy listener; oracle = backend-received == client-sent (request line, header multimap, body; SSH credentials, channel requests and data; raw bytes), client-received == backend-sent, one attributed event per relayed request, decoy untouched",
          "HTTP request sequences are delivered lock-step and pipelined with every single cut point (short streams) or sampled cuts; backend replies are written in seeded chunks; 1..3 concurrent clients. The backends answer with a transformation (xor) of what they received so a proxy echoing locally is told apart.",
-         "Allowed intermediary differences (header order across names, re-framing, name case) are not violations. connect() targets are observed through the decoy and the backends' own accept counts, not through a syscall tracer.",
+         "Allowed intermediary differences (header order across names, re-framing, name case) are not violations. connect() targets are observed twice: through the decoy listener and the backends' own accept counts, and - for the first scenarios of every part - through a system-call monitor (strace -f -e trace=connect on the child): every connect() to an internet address must name a backend.",
          "DESIGN.md §5 C15"),
  "C18": ("fault_enumeration",
          "runtime monitoring of the real binary across process lifetimes: identity read from outside (token in event lines, SSH host key via handshake callback, leaf certificates via FTP AUTH TLS / SMTP STARTTLS / LDAP StartTLS, agent key via printed key and a Noise_NK handshake with the remembered key) over restart histories, every synthesized on-disk state of the token file (absent, empty, all 19 proper prefixes), SIGKILL at seeded instants of a first start and (thorough) at the k-th file-system syscall injected with strace",
